@@ -28,11 +28,11 @@ def jobs(tier, pid="C07"):
         return [job("kinds", 3 if q else 4, [2], ["var", "field", "bitfield", "typedecl", "alias", "ptemplate", "stemplate"]),
                 job("aliases", 4 if q else 5, [1, 2], ["alias", "typedecl"], names=(1, 2), types=(1, 2))]
     return [
-        job("var-fun", 4 if q else 5, [1], ["var", "fundecl"]),
-        job("kinds", 3 if q else 4, [2], ["var", "field", "bitfield", "typedecl", "alias", "ptemplate", "stemplate"],
+        job("var-fun", 5, [1], ["var", "fundecl"]),
+        job("kinds", 4, [2], ["var", "field", "bitfield", "typedecl", "alias", "ptemplate", "stemplate"],
             names=(1, 2), types=(1, 2)),
-        job("two-scopes", 3 if q else 4, [1, 2], ["var", "typedecl", "fundecl"], names=(1,), types=(1, 2)),
-        job("homogeneous", 4 if q else 5, [3, 4, 5, 6], ["param", "enumerator", "base", "ehparam"], names=(1, 2, 3), types=(1, 2)),
+        job("two-scopes", 4, [1, 2], ["var", "typedecl", "fundecl"], names=(1,), types=(1, 2)),
+        job("homogeneous", 5, [3, 4, 5, 6], ["param", "enumerator", "base", "ehparam"], names=(1, 2, 3), types=(1, 2)),
     ]
 
 
